@@ -209,7 +209,7 @@ func run(c *lib.Ctx) error {
 					if mode == "tlt" {
 						am = "ByTime"
 					}
-					terms = append(terms, fmt.Sprintf("{| c_id := %d; k_img := %s; k_rep := %s; k_loopMS := %d; k_cfg := %s; k_mode := %s; k_segID := %d; k_now := %d; o_status := %d; o_ms := %s; o_tfdt := %d; o_seq := %d; o_srcStart := %d; o_dur := %d |}",
+					terms = append(terms, fmt.Sprintf("{| c_id := %d; k_img := %s; k_edge := false; k_rep := %s; k_loopMS := %d; k_cfg := %s; k_mode := %s; k_segID := %d; k_now := %d; o_status := %d; o_ms := %s; o_tfdt := %d; o_seq := %d; o_srcStart := %d; o_dur := %d |}",
 						id, lib.Cbool(r.Kind == "image"), name, a.LoopMS, cfg.CoqCfg(), am, segID, now, o.Status, lib.Zs(o.EarlyMS), o.Tfdt, o.Seq, o.SrcStart, o.Dur))
 				}
 				// $Number$ and $Time$ address the same segment
